@@ -117,8 +117,26 @@ fn roll_replay(path: &[u8]) -> Result<(), String> {
     if it1 != r || it2 != r {
         return Err(format!("update_by_iter with an inexact size hint differs from byte-wise after {}", hex(path)));
     }
+    // += &[u8; N] for N = 2..=16 at the end of the path, after a byte-wise prefix
+    macro_rules! arr_tail {
+        ($($n:expr),*) => {$(
+            if path.len() >= $n {
+                let cut = path.len() - $n;
+                let mut a = RollingHash::new();
+                for &c in &path[..cut] {
+                    a.update_by_byte(c);
+                }
+                let tail: [u8; $n] = path[cut..].try_into().unwrap();
+                a += &tail;
+                if a != r {
+                    return Err(format!("+= &[u8; {}] differs from byte-wise after {}", $n, hex(path)));
+                }
+            }
+        )*};
+    }
+    arr_tail!(2, 3, 6, 7, 8, 9, 13, 14, 15, 16);
     // split calls: a prefix by one form, the rest by another (state carried across bulk calls)
-    for cut in [1usize, 3, 7, 8] {
+    for cut in [1usize, 2, 3, 6, 7, 8, 9] {
         if cut < path.len() {
             let mut s1 = RollingHash::new();
             s1.update(&path[..cut]);
@@ -126,6 +144,20 @@ fn roll_replay(path: &[u8]) -> Result<(), String> {
             let mut s2 = RollingHash::new();
             s2.update_by_iter(path[..cut].iter().copied());
             s2 += &path[cut..];
+            // iterator first, then single bytes (the object must be left consistent by bulk calls)
+            let mut s3 = RollingHash::new();
+            s3.update_by_iter(path[..cut].iter().copied().filter(|_| true));
+            for &c in &path[cut..] {
+                s3.update_by_byte(c);
+            }
+            let mut s4 = RollingHash::new();
+            s4.update(&path[..cut]);
+            for &c in &path[cut..] {
+                s4 += c;
+            }
+            if s3 != r || s4 != r {
+                return Err(format!("bulk update followed by single bytes (cut {}) differs from byte-wise after {}", cut, hex(path)));
+            }
             if s1 != r || s2 != r {
                 return Err(format!("split bulk updates (cut {}) differ from byte-wise after {}", cut, hex(path)));
             }
